@@ -856,3 +856,11 @@ func verifLenIsHeaderPlusLength(p *PathAttribute) bool {
 //@   ensures result1 == nil
 //@   ensures p.Value.Is4() && lenFits(p.Flags, p.Length, 4) ==> len(result0) == attrLen(p.Flags, p.Length)
 //@   ensures p.Value.Is6() && lenFits(p.Flags, p.Length, 16) ==> len(result0) == attrLen(p.Flags, p.Length)
+
+//@ props C12
+// from C12: which Cease subcodes end the session hard (RFC 8538): prefix limit, admin shutdown, peer
+// de-configured, hard reset - and admin reset only when configured so
+//@ func ShouldHardReset
+//@   pure
+//@   modifies nothing
+//@   ensures result <==> (subcode == BGP_ERROR_SUB_MAXIMUM_NUMBER_OF_PREFIXES_REACHED || subcode == BGP_ERROR_SUB_ADMINISTRATIVE_SHUTDOWN || subcode == BGP_ERROR_SUB_PEER_DECONFIGURED || subcode == BGP_ERROR_SUB_HARD_RESET || (hardResetOnAdminReset && subcode == BGP_ERROR_SUB_ADMINISTRATIVE_RESET))
